@@ -1281,18 +1281,25 @@ pub trait BigInteger:
 
             while !e.is_zero() {
                 let z: i64;
+                let mut carry = false;
                 if e.is_odd() {
                     z = signed_mod_reduction(e.as_ref()[0], 1 << w);
                     if z >= 0 {
                         e.sub_with_borrow(&Self::from(z as u64));
                     } else {
-                        e.add_with_carry(&Self::from((-z) as u64));
+                        carry = e.add_with_carry(&Self::from((-z) as u64));
                     }
                 } else {
                     z = 0;
                 }
                 res.push(z);
                 e.div2();
+                // A carry out of the top limb becomes the top bit after halving.
+                if carry {
+                    if let Some(top) = e.as_mut().last_mut() {
+                        *top |= 1 << 63;
+                    }
+                }
             }
 
             Some(res)
